@@ -342,7 +342,8 @@ inductive Act where
   | goal (pos : Nat) (st : State)
   /-- `run_lookaround::<Dir>(input, ip + 1, pos, start_group, end_group, negate)` then
   `ip = continuation` -/
-  | look (dirFwd negate : Bool) (startGroup endGroup continuation : Nat)
+  | look (dirFwd negate : Bool) (startGroup endGroup continuation : Nat) (st : State)
+      (bts : Array BtInsn)
   | err (site : String)
 
 /-- `next_or_bt!` applied to the result of a matcher that moves the position. -/
@@ -446,8 +447,8 @@ def step (prog : Prog) (inp : Input) (ip pos : Nat) (fwd : Bool) (st : State)
           else
             nextOrBt (.ok (backref inp fwd rs re pos)) "try_at_pos: backref" ip st bts
         | none => .cont (ip + 1) pos st bts
-    | .lookahead negate sg eg k => .look true negate sg eg k
-    | .lookbehind negate sg eg k => .look false negate sg eg k
+    | .lookahead negate sg eg k => .look true negate sg eg k st bts
+    | .lookbehind negate sg eg k => .look false negate sg eg k st bts
     | .alt secondary => .cont (ip + 1) pos st (bts.push (.setPosition secondary pos))
     | .enterLoop id min max greedy exit =>
       -- let loop_data = self.s.loops.mat(id); push SetLoopData { id, data: *loop_data }; iters = 0
@@ -511,7 +512,7 @@ def run (prog : Prog) (inp : Input) (limit : Nat) :
       | .err e => .error e
       | .exhausted st _ => .failed st steps peak
       | .resumed ip pos st bts => run prog inp limit sf ip pos fwd st bts steps peak
-    | .look dirFwd negate sg eg continuation =>
+    | .look dirFwd negate sg eg continuation st bts =>
       -- let saved_groups = self.s.groups.iat(range.clone()).to_vec();   (unchecked slice)
       if sg > eg || eg > st.groups.size then
         .error "run_lookaround: groups.iat(start_group..end_group) out of range"
